@@ -40,7 +40,14 @@ func (fc *FnCtx) loopAtEnd(st *State, li loopInfo, node ast.Node) {
 		if !fc.clauseActive(c) {
 			continue
 		}
+		// an end-of-iteration clause may mention variables declared in the loop body: resolve names at the closing brace
 		env := &specEnv{fc: fc, st: st, old: fc.entry, at: node.Pos(), scopeNode: node}
+		switch x := node.(type) {
+		case *ast.ForStmt:
+			env = &specEnv{fc: fc, st: st, old: fc.entry, at: x.Body.Rbrace}
+		case *ast.RangeStmt:
+			env = &specEnv{fc: fc, st: st, old: fc.entry, at: x.Body.Rbrace}
+		}
 		t := fc.specBool(st, c.Expr, env)
 		fc.curEnv = env
 		fc.assert(st, "atend", clauseName(fmt.Sprintf("loop%d.atend", li.ord), c, k), t, node.Pos(), c.Src)
